@@ -342,6 +342,7 @@ func ruleC13Arity(p *Program, r *Run) {
 
 type pairClient struct {
 	BaseClient
+	InlinePredicates
 	p       *Program
 	fn      string
 	exprVar types.Object // the *parser.TabularExpr local
@@ -550,6 +551,9 @@ func ruleC13ErrCheck(p *Program, r *Run) {
 	n := 0
 	for _, fd := range AllFuncs(pkg) {
 		fn := FuncName(pkg, fd)
+		if fobj := FuncObj(pkg, fd); fobj != nil && !p.reachableFromAPI()[fobj] {
+			continue // not part of what Compile does (a new convenience wrapper, say)
+		}
 		ast.Inspect(fd.Body, func(x ast.Node) bool {
 			call, ok := x.(*ast.CallExpr)
 			if !ok {
@@ -655,6 +659,7 @@ func (p *Program) errorHandled(info *types.Info, call *ast.CallExpr) (string, bo
 
 type gatesClient struct {
 	BaseClient
+	InlinePredicates
 	p        *Program
 	fn       string
 	quoteID  *types.Func
@@ -820,7 +825,7 @@ func ruleC13Parser(p *Program, r *Run) {
 					}
 				}
 			case *ast.CompositeLit:
-				if litField(info, v, "RowCount") != nil && StructOf(info.TypeOf(v)) != nil {
+				if rc := litField(info, v, "RowCount"); rc != nil && StructOf(info.TypeOf(v)) != nil && !isNilIdent(info, rc) {
 					stores = true
 				}
 			}
@@ -839,106 +844,23 @@ func ruleC13Parser(p *Program, r *Run) {
 	}
 	r.Check(users >= 2, "C13/rowcount", "parser: take and top store a row count", p.Pos(fd.Pos()), fmt.Sprintf("%d functions store a row count, all through rowCount()", users), "fewer than two parser functions store a row count (take and top both have one)")
 
-	// joinOperator: flavor lookup
+	// joinOperator: on every path on which the join kind was looked up in joinTypes and not found, the error that
+	// is returned is known to be non-nil (path facts: the comma-ok result of the lookup; an error joined with a
+	// fresh error is non-nil)
 	jfd := p.MustFunc(pkg, "parser.joinOperator")
 	jfn := FuncName(pkg, jfd)
 	r.Saw(jfn)
-	joinTypes := p.PkgVar(pkg, "joinTypes")
-	var flavorAssign *ast.AssignStmt
-	ast.Inspect(jfd.Body, func(n ast.Node) bool {
-		if as, ok := n.(*ast.AssignStmt); ok && len(as.Lhs) == 1 {
-			if f := selField(info, as.Lhs[0]); f != nil && f.Name() == "Flavor" {
-				flavorAssign = as
-			}
-		}
-		return true
-	})
+	jc := &joinKindClient{p: p, table: "G:" + pkg.Types.Name() + ".joinTypes"}
+	je := NewEngine(p, pkg, jfd, jc)
+	je.Run(nil)
 	key := jfn + " join kind lookup"
-	if flavorAssign == nil {
-		r.Fail("C13/joinkind", key, p.Pos(jfd.Pos()), "no store to JoinOperator.Flavor found")
-	} else {
-		var nameVal ast.Expr
-		if lit := litOf(flavorAssign.Rhs[0]); lit != nil {
-			nameVal = litField(info, lit, "Name")
-		}
-		ok, why := false, "the statement after the Flavor store is not the joinTypes membership test"
-		if blk, isBlk := p.Parent(flavorAssign).(*ast.BlockStmt); isBlk {
-			for i, s := range blk.List {
-				if s != ast.Stmt(flavorAssign) {
-					continue
-				}
-				for _, nxt := range blk.List[i+1:] {
-					ifs, isIf := nxt.(*ast.IfStmt)
-					if !isIf {
-						continue
-					}
-					init, isAs := ifs.Init.(*ast.AssignStmt)
-					if !isAs || len(init.Rhs) != 1 || len(init.Lhs) != 2 {
-						continue
-					}
-					ix, isIx := init.Rhs[0].(*ast.IndexExpr)
-					if !isIx || objOf(info, ix.X) != types.Object(joinTypes) {
-						continue
-					}
-					if nameVal == nil || !sameExpr(info, ix.Index, nameVal) {
-						why = "the joinTypes lookup key is not the flavor name that was stored"
-						continue
-					}
-					okObj := objOf(info, init.Lhs[1])
-					un, isNot := ast.Unparen(ifs.Cond).(*ast.UnaryExpr)
-					if !isNot || un.Op != token.NOT || objOf(info, un.X) != okObj {
-						why = "the miss edge of the joinTypes lookup is not tested"
-						continue
-					}
-					// body must add a fresh error to a variable that every later return returns
-					var errVar types.Object
-					for _, bs := range ifs.Body.List {
-						if as, ok := bs.(*ast.AssignStmt); ok && len(as.Lhs) == 1 && len(as.Rhs) == 1 {
-							if call, ok := as.Rhs[0].(*ast.CallExpr); ok {
-								hasLit := false
-								for _, a := range call.Args {
-									if litOf(a) != nil {
-										hasLit = true
-									}
-								}
-								if hasLit {
-									errVar = objOf(info, as.Lhs[0])
-								}
-							}
-						}
-					}
-					if errVar == nil {
-						why = "the miss edge does not record an error"
-						continue
-					}
-					// all returns after this point mention errVar in their error result
-					allRet := true
-					ast.Inspect(jfd.Body, func(n ast.Node) bool {
-						ret, isRet := n.(*ast.ReturnStmt)
-						if !isRet || ret.Pos() < ifs.End() || len(ret.Results) != 2 {
-							return true
-						}
-						found := false
-						ast.Inspect(ret.Results[1], func(m ast.Node) bool {
-							if id, ok := m.(*ast.Ident); ok && objOf(info, id) == errVar {
-								found = true
-							}
-							return true
-						})
-						if !found {
-							allRet = false
-						}
-						return true
-					})
-					if !allRet {
-						why = "a later return drops the accumulated error"
-						continue
-					}
-					ok, why = true, "unknown join kind adds an error that every later return carries"
-				}
-			}
-		}
-		r.Check(ok, "C13/joinkind", key, p.Pos(flavorAssign.Pos()), why, why+": an unknown join kind would be accepted by the parser")
+	switch {
+	case len(je.Errs) > 0:
+		r.Fail("C13/joinkind", key, p.Pos(jfd.Pos()), strings.Join(je.Errs, "; "))
+	case jc.misses == 0:
+		r.Fail("C13/joinkind", key, p.Pos(jfd.Pos()), "no return of joinOperator is reached on a path where the join kind was looked up in joinTypes and missed: an unknown join kind would be accepted by the parser")
+	default:
+		r.Check(jc.bad == "", "C13/joinkind", key, p.Pos(jfd.Pos()), fmt.Sprintf("every return after a missed joinTypes lookup carries a non-nil error (%d path states)", jc.misses), jc.bad+": an unknown join kind would be accepted by the parser")
 	}
 	r.Floor("C13/joinkind", 1)
 }
@@ -1015,10 +937,88 @@ func (c *provClient) Visit(e *Engine, st *State, n ast.Node) *State {
 	if !ok || !e.Reporting() {
 		return nil
 	}
-	if v := litField(e.Info, cl, c.field); v != nil && StructOf(e.Info.TypeOf(cl)) != nil {
+	if v := litField(e.Info, cl, c.field); v != nil && StructOf(e.Info.TypeOf(cl)) != nil && !isNilIdent(e.Info, v) {
 		c.stores++
 		if !c.tagged(e, st, v) {
 			c.bad++
+		}
+	}
+	return nil
+}
+
+// joinKindClient: after a missed lookup in the join-kind table the returned error is non-nil.
+type joinKindClient struct {
+	BaseClient
+	InlinePure
+	p      *Program
+	table  string
+	misses int
+	bad    string
+}
+
+// PostCall: joining errors of which one is known non-nil gives a non-nil error.
+func (c *joinKindClient) PostCall(e *Engine, st *State, call *ast.CallExpr, callee *types.Func) *State {
+	if callee == nil || fnName(callee) != "joinErrors" {
+		return nil
+	}
+	nonNil := false
+	for _, a := range call.Args {
+		if knownNonNilError(e, st, a) {
+			nonNil = true
+		}
+	}
+	if !nonNil {
+		return nil
+	}
+	ids := e.CallResults(call)
+	if len(ids) != 1 {
+		return nil
+	}
+	k := e.CanonSt(st, ids[0])
+	if !k.OK {
+		return nil
+	}
+	if n := e.update(st.killObj(e.Info.Defs[ids[0]]), k, func(f *Fact) { f.Nil = 2 }); n != nil {
+		return n
+	}
+	return nil
+}
+
+func (c *joinKindClient) Return(e *Engine, st *State, ret *ast.ReturnStmt) {
+	if !e.Reporting() || e.Lit != nil || ret == nil || len(ret.Results) != 2 {
+		return
+	}
+	missed := false
+	for _, k := range st.Keys() {
+		if strings.HasPrefix(k, "has("+c.table+",") {
+			if f := st.Get(k); f != nil && f.HasEq && f.Eq == "false" {
+				missed = true
+			}
+		}
+	}
+	// the ok variable of the lookup may be out of scope by now: remembered by Stmt
+	if st.Ext("jk:missed") == "1" {
+		missed = true
+	}
+	if !missed {
+		return
+	}
+	c.misses++
+	if !knownNonNilError(e, st, ret.Results[1]) {
+		c.bad = "the return at " + e.P.Pos(ret.Pos()) + " is reached after a missed joinTypes lookup with an error that is not known to be non-nil"
+	}
+}
+
+// Stmt: remember a missed lookup beyond the scope of its ok variable.
+func (c *joinKindClient) Stmt(e *Engine, st *State, _ ast.Stmt) *State {
+	if st.Ext("jk:missed") == "1" {
+		return nil
+	}
+	for _, k := range st.Keys() {
+		if strings.HasPrefix(k, "has("+c.table+",") {
+			if f := st.Get(k); f != nil && f.HasEq && f.Eq == "false" {
+				return st.WithExt("jk:missed", "1")
+			}
 		}
 	}
 	return nil
